@@ -1,6 +1,7 @@
 //! Correspondence harness: generates programs, runs the real analyzer on them in-process and
 //! writes `G`/`P`/`D` lines (group header, program in wire format, canonical dump).
 
+mod codec;
 mod dump;
 mod gen;
 mod ir;
@@ -67,6 +68,28 @@ fn main() {
                         c.allow_loop_outside = true;
                         let p = gen::gen_wf(s, &c);
                         emit_group(&mut out, "loopout", &format!("seed={s}"), &[p]);
+                    }
+                    "codec" | "codecnf" => {
+                        // programs for the codec round trips; `codecnf`: no float literals and no
+                        // extension leaves, so that the Lean data-model encoder can be compared
+                        let mut c = gen::Cfg::wf();
+                        if profile == "codecnf" {
+                            c.ext = false;
+                            c.no_floats = true;
+                        }
+                        c.escapes = i % 10 == 9;
+                        let prog = if i % 3 == 2 { gen::gen_wild_cfg(s, &c).0 } else { gen::gen_wf(s, &c) };
+                        let (flags, canon) = codec::check(&prog);
+                        writeln!(out, "G 1 {} seed={s}", profile).unwrap();
+                        writeln!(out, "P {}", ir::w_prog(&prog)).unwrap();
+                        writeln!(out, "X {}", flags).unwrap();
+                        let wire = ir::w_prog(&prog);
+                        if profile == "codecnf" && !wire.contains("(f32 ") && !wire.contains("(f64 ") && !wire.contains("(ext ") {
+                            if let Some(j) = canon {
+                                writeln!(out, "J {}", j).unwrap();
+                            }
+                        }
+                        writeln!(out, "D {}", dump::analyze(&prog)).unwrap();
                     }
                     "flow" => {
                         let p = gen::gen_flow(s, i % 2 == 0);
